@@ -40,13 +40,13 @@ Recipient_FromCbor(v) ==
           IF ~p.ok THEN p
           ELSE Good([prot |-> p.x, unprot |-> u.x, cipher |-> c.x, recips |-> rs.x])
 
-(* signatures inside COSE_Sign: every nested error except DuplicateMapKey is re-labelled *)
-(* UnexpectedItem (the map_err of CoseSign::from_cbor_value, after fix: 928b9bd)          *)
+(* signatures inside COSE_Sign: every nested error except DuplicateMapKey and OutOfRangeIntegerValue is *)
+(* re-labelled UnexpectedItem (the map_err of CoseSign::from_cbor_value, after fix: 928b9bd, 2d5a00a)    *)
 RECURSIVE SignSigsFrom(_, _)
 SignSigsFrom(a, acc) ==
   IF a = <<>> THEN Good(acc)
   ELSE LET r == Sig_FromCbor(a[1]) IN
-    IF ~r.ok THEN (IF r.err \in {"DuplicateMapKey", "GAP"} THEN r ELSE TypeErr)
+    IF ~r.ok THEN (IF r.err \in {"DuplicateMapKey", "OutOfRangeIntegerValue", "GAP"} THEN r ELSE TypeErr)
     ELSE SignSigsFrom(Tail(a), Append(acc, r.x))
 
 Sign_FromCbor(v) ==
